@@ -112,6 +112,16 @@ def gen_cases(rng, tier):
             for _ in range(n):
                 v = b"[" + (b"0, " if pos != "after" else b"") + v + (b", 2" if pos != "before" else b"") + b"]"
             add(b"a = " + v + b"\n", {"kind": "sibling-arr-" + pos, "n": n, "expect": "ok" if n <= LIMIT - 1 else "recursion"})
+    # WIDTH is not depth: a container with many shallow container elements is nested no deeper than one of them
+    for n in [2, 40, 77, 78, 79, 80, 81, 200, 1000]:
+        for elem in (b"[0]", b"{x = 1}", b"[[0]]", b"{y.z = 1}"):
+            wide = b"[" + b", ".join([elem] * n) + b"]"
+            add(b"a = " + wide + b"\n", {"kind": "wide-array", "n": n, "expect": "ok", "must_accept": True})
+            add(b"a = {p = " + wide + b"}\n", {"kind": "wide-array-in-inline", "n": n, "expect": "ok", "must_accept": True})
+            add(b"a = {q.r = {p = " + wide + b"}}\n", {"kind": "wide-array-in-inline-dotted", "n": n, "expect": "ok", "must_accept": True})
+        widet = b"{" + b", ".join(b"k%d = {x = 1}" % i for i in range(n)) + b"}"
+        add(b"a = " + widet + b"\n", {"kind": "wide-inline", "n": n, "expect": "ok", "must_accept": True})
+        add(b"a = [" + widet + b"]\n", {"kind": "wide-inline-in-array", "n": n, "expect": "ok", "must_accept": True})
     # three constructs + header path + top-level dotted key
     g3 = [1, 20, 40, 78] if tier == "quick" else [1, 10, 20, 40, 60, 78, 79]
     for nh in g3:
